@@ -212,6 +212,19 @@ func solveOne(vc *VC, o *Obligation, idx int, opts SolveOpts) *Result {
 		}
 		return r
 	}
+	// stage 0: cone-of-influence slice (fewer assumptions: an `unsat` there is an `unsat` of the full script)
+	if !o.Cover && o.NFact > 40 {
+		sfile := filepath.Join(opts.Dir, fmt.Sprintf("o%05d.sliced.smt2", idx))
+		if err := os.WriteFile(sfile, []byte(vc.ScriptOpt(o, false, true)), 0o644); err == nil {
+			raw, out, dt := runSolver(Solvers[0], opts.Timeout1, sfile)
+			if raw == "unsat" {
+				r.Raw, r.Solver, r.Output, r.TimeS, r.Status = raw, Solvers[0].Name+"(sliced)", out, dt, "discharged"
+				r.PerSolver[Solvers[0].Name] = raw
+				return r
+			}
+			r.TimeS += dt
+		}
+	}
 	raw, out, dt := runSolver(Solvers[0], opts.Timeout1, file)
 	r.PerSolver[Solvers[0].Name] = raw
 	r.Raw, r.Solver, r.Output, r.TimeS = raw, Solvers[0].Name, out, dt
